@@ -127,9 +127,9 @@ impl Ctl {
     }
 
     /// Call i: the start gate, the call itself, its result.
-    pub fn wrap<F>(self: &Arc<Self>, i: usize, f: F) -> impl Future<Output = ()> + Send + 'static
+    pub fn wrap<F>(self: &Arc<Self>, i: usize, f: F) -> impl Future<Output = ()> + use<F>
     where
-        F: Future<Output = String> + Send + 'static,
+        F: Future<Output = String>,
     {
         let ctl = self.clone();
         ACK_ID.scope(i, async move {
